@@ -172,6 +172,10 @@ def check(res):
                 # delivered in the very loop step (or the one before) in which a suspension starts - e.g. right after a
                 # resume that found the suspension waiting: either answer is legitimate
                 expect[val] = None
+            elif redo_mids and state == "running":
+                # the same window held open: the suspension's start was cut short by a pause, the resume brought the
+                # monitors back, and a second pause request came before the start could be carried out again
+                expect[val] = None
             elif monitored and state == "running" and suspended == 0:
                 expect[val] = 1
             else:
